@@ -75,6 +75,9 @@ from nucs.solvers.solver import Solver, decrease_max, get_solution, increase_min
 
 logger = logging.getLogger(__name__)
 
+STACK_EXTRA_LEVELS = 2  # levels allocated on top of stack_max_height, never used by a search that fits
+STACK_MAX_HEIGHT_LIMIT = 255 - STACK_EXTRA_LEVELS  # the top of the stacks is stored as a uint8
+
 
 class BacktrackSolver(Solver):
     """
@@ -121,9 +124,14 @@ class BacktrackSolver(Solver):
         self.consistency_alg_idx = consistency_alg_idx
         self.triggered_propagators = np.ones(problem.propagator_nb, dtype=np.bool)
         logger.debug("Initializing choice points")
-        self.shr_domains_stack = np.empty((stack_max_height, self.problem.shr_domain_nb, 2), dtype=np.int32)
-        self.not_entailed_propagators_stack = np.empty((stack_max_height, self.problem.propagator_nb), dtype=np.bool)
-        self.dom_update_stack = np.empty((stack_max_height, 2), dtype=np.uint16)
+        if not 0 < stack_max_height <= STACK_MAX_HEIGHT_LIMIT:
+            raise ValueError(f"stack_max_height must be in [1, {STACK_MAX_HEIGHT_LIMIT}]")  # stacks_top is a uint8
+        # STACK_EXTRA_LEVELS levels are allocated in addition (a choice can push 2 levels, shaving uses 1 scratch level),
+        # so that a stack overflow is detected after a choice and before any write outside the arrays
+        stack_height = stack_max_height + STACK_EXTRA_LEVELS
+        self.shr_domains_stack = np.empty((stack_height, self.problem.shr_domain_nb, 2), dtype=np.int32)
+        self.not_entailed_propagators_stack = np.empty((stack_height, self.problem.propagator_nb), dtype=np.bool)
+        self.dom_update_stack = np.empty((stack_height, 2), dtype=np.uint16)
         self.stacks_top = np.ones((1,), dtype=np.uint8)
         logger.info(f"Choice points stack has a maximal height of {stack_max_height}")
         cp_init(
@@ -574,6 +582,8 @@ def solve_one(
                 dom_idx,
                 events,
             )
+            if stacks_top[0] >= len(shr_domains_stack) - STACK_EXTRA_LEVELS:
+                raise RuntimeError("The choice point stack is full, increase stack_max_height")
             statistics[STATS_IDX_SOLVER_CHOICE_NB] += 1
             if stacks_top[0] > statistics[STATS_IDX_SOLVER_CHOICE_DEPTH]:
                 statistics[STATS_IDX_SOLVER_CHOICE_DEPTH] = stacks_top[0]
